@@ -11,6 +11,7 @@ the fields of the object and `ret`.  For every instantiated member:
 Nothing is executed; a contract that does not hold is reported with the member, the site and the inequality that fails."""
 import re
 from .facts import AnalysisBroken
+from .zone import zone_is_ptr
 from . import ranges, zone
 from .zone import DBM
 from .sym import sym, show
@@ -291,7 +292,7 @@ def verify(ctx, spec, check_sites, rule, min_sites=0, extra_post=None, collect=N
         for x in fn.walk():
             if x['k'] == 'DeclStmt':
                 for d in x['decls']:
-                    if 'var' in d and 'init' in d and fn.locals[d['var']]['type'].endswith('*'):
+                    if 'var' in d and 'init' in d and zone_is_ptr(fn.locals[d['var']]['type']):
                         c0 = fn.strip(fn.nodes[d['init']])
                         if c0 is not None and c0['k'] == 'CXXMemberCallExpr' and c0.get('callee') == 'data':
                             fld = fn.field_name(fn.strip(fn.call_object(c0)))
@@ -504,7 +505,7 @@ class Packed:
         out = {}
         for nm, txt in self.ptr_cols.get(fn.name, {}).items():
             for vid, lv in fn.locals.items():
-                if lv['name'] == nm and lv['type'].endswith('*'):
+                if lv['name'] == nm and zone_is_ptr(lv['type']):
                     out[vid] = _resolve(fn, _lin(txt), extra=self._locals(fn))
         return out
 
@@ -801,9 +802,10 @@ def verify_dense(ctx, spec, dense, check_sites, rule, min_sites=0):
         if isinstance(txt, int):
             return {1: txt}
         return _resolve(fn, _lin(txt))
-    old_pv, old_ps = zone.PTR_VARS, zone.PTR_STEP
+    old_pv, old_ps, old_pa = zone.PTR_VARS, zone.PTR_STEP, zone.PTR_ASSUME
     zone.PTR_VARS = lambda f: set(dense.table(f, resolve))
     zone.PTR_STEP = dense.make_step(resolve)
+    zone.PTR_ASSUME = dense.make_assume(resolve)
 
     def entry_extra(fn, st):
         # pointer PARAMETERS of the table start at the origin of their window
@@ -814,4 +816,4 @@ def verify_dense(ctx, spec, dense, check_sites, rule, min_sites=0):
     try:
         return verify(ctx, spec, check_sites, rule, min_sites=min_sites, extra_sites=dense.sites(resolve), entry_extra=entry_extra)
     finally:
-        zone.PTR_VARS, zone.PTR_STEP = old_pv, old_ps
+        zone.PTR_VARS, zone.PTR_STEP, zone.PTR_ASSUME = old_pv, old_ps, old_pa
